@@ -209,6 +209,27 @@ def judge(case) -> Outcome:
         M = dense(mm)
         if not check_spec(ms, M, mm, out, tag, case):
             return out
+        # a copied or pickled spec answers lookups by (equal, newly built) term objects exactly as the original does
+        try:
+            import copy
+            import pickle
+
+            from formulaic.parser.types import Term
+
+            for how, ms2 in (("pickle", pickle.loads(pickle.dumps(ms))), ("deepcopy", copy.deepcopy(ms))):
+                for t in ms.formula:
+                    fresh = Term(t.factors)
+                    want = list(ms.term_indices[t])
+                    try:
+                        got = list(ms2.term_indices[fresh])
+                        sl = ms2.get_slice(fresh)
+                        if got != want or list(range(*sl.indices(M.shape[1]))) != want:
+                            out.fail("c10.lookup_after_copy", f"{tag}: after {how}, term {t} -> indices {got} / slice {sl}, the original spec has {want}")
+                    except (KeyError, ValueError) as e:
+                        out.fail("c10.lookup_after_copy", f"{tag}: after {how}, looking term {t} up by an equal term object raises {type(e).__name__}")
+                    out.see("copied_spec_lookups")
+        except Exception as e:  # noqa: BLE001
+            out.fail("c10.copy_raised", f"{tag}: {type(e).__name__}: {str(e)[:150]}")
         # the same spec used again, the caller's mapping-valued factor now listing its sub-columns in another order: every
         # reported name must still sit on its own column
         try:
